@@ -80,6 +80,7 @@ def cases(shard):
     elif w == "gen":
         rng = random.Random(shard["rs"])
         g = gen.ScriptGen(rng, maxdepth=shard.get("depth", 3))
+        g.repeat_slot = shard.get("repeat", 0)
         for i in range(shard["n"]):
             g.maxdepth = rng.choice([0, 1, 2, shard.get("depth", 3)])
             toks, exts = g.script()
